@@ -298,6 +298,27 @@ package pubsub
 //@        calls((*rpcQueue).Close) == iter(calls((*rpcQueue).Close)) + 1 && lastarg((*rpcQueue).Close, 0) == iter(p.peers[q]) &&
 //@        calls((*PubSub).clearPeerFromTopicsState) == iter(calls((*PubSub).clearPeerFromTopicsState)) + 1 && lastarg((*PubSub).clearPeerFromTopicsState, 1) == q &&
 //@        calls(PubSubRouter.OnClosedOutboundStream) == iter(calls(PubSubRouter.OnClosedOutboundStream)) + 1 && lastarg(PubSubRouter.OnClosedOutboundStream, 1) == q
+//@   loop 1 step requeued-has-writer: forall q string :: q == pid && q in p.peers ==> iter(q in p.peers) &&
+//@        calls(go:(*PubSub).handleNewPeerWithBackoff) == iter(calls(go:(*PubSub).handleNewPeerWithBackoff)) + 1 &&
+//@        lastarg(go:(*PubSub).handleNewPeerWithBackoff, 2) == q && lastarg(go:(*PubSub).handleNewPeerWithBackoff, 4) == p.peers[q]
 //@   loop 1 step unknown-peer-ignored: forall q string :: q == pid && !iter(q in p.peers) ==>
 //@        calls((*rpcQueue).Close) == iter(calls((*rpcQueue).Close)) && calls(PubSubRouter.OnClosedOutboundStream) == iter(calls(PubSubRouter.OnClosedOutboundStream)) && !(q in p.peers)
 //@   ensures no-stale-queue: forall q string :: q in p.peers ==> old(q in p.peers) && (p.peers[q] == old(p.peers[q]) || fresh(p.peers[q]))
+
+// handlePendingPeers: a pending peer gets an outbound queue only if it is connected, not yet
+// known and not blacklisted; every queue created gets its writer goroutine; known peers keep
+// their queue.
+//@ func (*PubSub).handlePendingPeers
+//@   property C13 C16
+//@   requires peers: p.peers != nil
+//@   noframe
+//@   loop 1 invariant kept: p.peers != nil && p.peers == old(p.peers) && (forall q string :: old(q in p.peers) ==> q in p.peers && p.peers[q] == old(p.peers[q])) &&
+//@        (forall q string :: q in p.peers && !old(q in p.peers) ==> $visited[q] && fresh(p.peers[q]))
+//@   loop 1 step blacklisted-not-connected: forall q string :: q == pid && !iter(q in p.peers) && q in p.peers ==>
+//@        calls(Blacklist.Contains) == iter(calls(Blacklist.Contains)) + 1 && lastarg(Blacklist.Contains, 1) == q && !lastret(Blacklist.Contains)
+//@   loop 1 step new-queue-has-writer: forall q string :: q == pid && !iter(q in p.peers) && q in p.peers ==>
+//@        calls(go:(*PubSub).handleNewPeer) == iter(calls(go:(*PubSub).handleNewPeer)) + 1 && lastarg(go:(*PubSub).handleNewPeer, 2) == q &&
+//@        lastarg(go:(*PubSub).handleNewPeer, 3) == p.peers[q]
+//@   loop 1 step writer-only-for-new-queue: forall q string :: q == pid && (iter(q in p.peers) || !(q in p.peers)) ==>
+//@        calls(go:(*PubSub).handleNewPeer) == iter(calls(go:(*PubSub).handleNewPeer))
+//@   ensures known-kept: forall q string :: old(q in p.peers) ==> q in p.peers && p.peers[q] == old(p.peers[q])
